@@ -41,14 +41,23 @@ META = {
              "handed in, model kind), bystanders with periodic / neumann boundary, LMRF, CMRF - built, prepared and drawn from in ONE process in every "
              "interleaving (Build / Prep / Draw per item); invariant ItemsIndependent (the draw of an item is the posterior of its OWN configuration), "
              "deviations StructureSharedByDimBcOrder / FactorSharedByFamilyAndSize (a table keyed by a projection of the configuration outlives the "
-             "objects) refuted; every behaviour is replayed in a fresh python process and compared with the exact posterior of each item."),
+             "objects) refuted; every behaviour is replayed in a fresh python process and compared with the exact posterior of each item.  "
+             "Both sides of the dense / sparse switch (LinGaussThr.tla, EXTENDS LinGauss): the value of the public cuqi.config.MIN_DIM_SPARSE is a "
+             "dimension of the configuration - lowered to 0 / 1 / 2 (every noise and prior input form on the sparse side, noise and prior on "
+             "different sides) and, untouched, with the configuration replicated block-diagonally 26 / 38 times (dimensions 52 .. 114 across the "
+             "real threshold 75; replication law checked by TLC with two copies) - as is the data layout of every input array (int, float32, "
+             "column-major, strided view, read-only); invariants ThrWhitening / ThrDrawIsPosteriorDraw / ThrCovariance (the draw does not depend "
+             "on WHICH square root of the precision the Gaussian holds on its side), deviations AboveFactorNotTransposed / AboveDiagNotRooted "
+             "refuted; the replay is the complete Linear RTO / UGLA replay above, inside the lowered threshold."),
     "note": ("Bounded sizes (n, m <= 3; ill-conditioned part n <= 12, m = 1), precisions on an integer/dyadic lattice; inner CGLS run with maxit=60, tol=1e-13 "
              "('run to convergence'; ill-conditioned part: maxit = 4n+8, tol = 1e-20, comparison 1e-6, kappa = 1/(b + sigma^2) evaluated by the harness "
              "from TLC's exact rationals); RegularizedLinearRTO not covered (not a Gaussian draw); GMRF priors with zero boundary "
              "condition only (the others are documented as inexact); point at which UGLA evaluates its weights (x_k or x_k - "
              "location) is not documented: either is accepted and recorded as an observation; what a sampler draws between an update of its target "
              "and the reinitialisation is not documented (observed only); process-history lists: n <= 4 (2-D grid 2 x 2), one likelihood; fresh process = "
-             "forked child of a pristine interpreter that has only imported cuqi and the helpers."),
+             "forked child of a pristine interpreter that has only imported cuqi and the helpers; threshold part: GMRF / stacked priors do not "
+             "depend on the switch (kept as they are), replication for Gaussian priors only, float32 never for the parameters of a Gaussian, "
+             "python lists are not documented inputs and not used."),
     "technique": "TLA+ spec (LinGauss) model-checked with TLC; TLC-emitted cases replayed into the real samplers with scripted normals",
 }
 
